@@ -242,3 +242,191 @@ Section FortranParsedFrame.
     - apply Mono. apply IH; assumption.
   Qed.
 End FortranParsedFrame.
+
+(* ---- the two composed: FortranEngine.solve_t of ANY generated program touches only period p ---- *)
+Section FortranParsedSolveT.
+  Variable num : Type.
+  Variables (add sub mul div : num -> num -> num) (neg absf : num -> num) (ltb : num -> num -> bool).
+  Variable of_int : Z -> num.
+  Variables (fexp flog : num -> num) (fpow : num -> num -> num).
+  Variable round4 : num -> num.
+  Variables (exp4 log4 : num -> num) (pow4 : num -> num -> num).
+  Variables (zero one : num).
+  Variable isfin : num -> bool.
+  Notation f_pass := (f_pass num add sub mul div neg absf ltb of_int fexp flog fpow round4 exp4 log4 pow4 zero one).
+
+  (* for every program (left-hand rows inside the matrix), every option set, both spellings of t, feasible or not:
+     the Fortran engine changes no value outside column p — and inside it only rows that are a left-hand side or
+     endogenous —, status / iterations at p only, no hook event *)
+  Theorem fortran_parsed_solve_t_touches_only_t (prog : list (eqn num)) (fm : fmod) d o t s p :
+    py_pos (length (status s)) t = Some p ->
+    hd 0%nat (shape (vals_of s)) = length (status s) ->
+    (forall r, In r (fm_endo fm) -> 1 <= r <= Z.of_nat (length (vals_of s))) ->
+    (forall i e, In (i, e) prog -> (i < length (vals_of s))%nat) ->
+    let s' := fst (w_solve_t num sub absf ltb isfin zero (f_pass prog) fm d o t s) in
+    agree_outside (fun i j => ((exists e, In (i, e) prog) \/ In i (endo d) \/ In (Z.of_nat i + 1) (fm_endo fm)) /\ j = p)
+                  (vals_of s) (vals_of s') /\
+    sf_frame p s s' /\ log s' = log s.
+  Proof.
+    intros Hp Hcols Hrows Hlhs. cbv zeta.
+    assert (Hlt : (p < length (status s))%nat) by (apply py_pos_inv in Hp; lia).
+    destruct (fortran_solve_t_frame num sub absf ltb isfin zero (f_pass prog) fm d o t s p
+                (f_written num prog (Z.of_nat p + 1)) Hp Hcols Hrows) as (A & B & C).
+    - intros v Hs. apply (f_pass_frame num add sub mul div neg absf ltb of_int fexp flog fpow round4 exp4 log4 pow4 zero one
+                            (shape (vals_of s))); [rewrite Hcols; lia| |exact Hs].
+      intros i e Hin. rewrite shape_length. exact (Hlhs i e Hin).
+    - split; [|split; [exact B|exact C]]. eapply agree_mono; [|exact A].
+      intros i j [[He Hj]|[Hi Hj]].
+      + split; [left; exact He|]. rewrite Hj. replace (Z.of_nat p + 1 - 1) with (Z.of_nat p) by lia. apply Nat2Z.id.
+      + split; [right; exact Hi|exact Hj].
+  Qed.
+End FortranParsedSolveT.
+
+(* ---- FortranEngine.solve(): the compiled loop over the requested periods + the wrapper's result loop ---- *)
+Section FortranSolveFrame.
+  Variable num : Type.
+  Variables (sub : num -> num -> num) (absf : num -> num) (ltb : num -> num -> bool)
+            (isfin : num -> bool) (zero : num).
+  Variable evf : Z -> vals num -> vals num.
+  Notation t_solve_t := (t_solve_t num sub absf ltb isfin zero evf).
+  Notation t_solve_loop := (t_solve_loop num sub absf ltb isfin zero evf).
+  Notation w_results := (w_results num).
+  Notation w_solve := (w_solve num sub absf ltb isfin zero evf).
+
+  Variable fm : fmod.
+  Variable sh : list nat.
+  Variable W : Z -> nat -> nat -> Prop.       (* what the equations block may write when called for column idx *)
+  Hypothesis Hrows : forall r, In r (fm_endo fm) -> 1 <= r <= Z.of_nat (length sh).
+  Hypothesis Hevf : forall idx v, 1 <= idx <= Z.of_nat (hd 0%nat sh) -> shape v = sh -> agree_outside (W idx) v (evf idx v).
+
+  Definition WFs (ts : list Z) (i j : nat) : Prop := exists idx, In idx ts /\ WF fm idx (W idx) i j.
+
+  Lemma t_solve_loop_agree mi ma tl off cv fc ec : forall (ts : list Z) (v : vals num),
+    (forall idx, In idx ts -> 1 <= idx <= Z.of_nat (hd 0%nat sh)) -> shape v = sh ->
+    agree_outside (WFs ts) v (fst (t_solve_loop fm v ts mi ma tl off cv fc ec)).
+  Proof.
+    induction ts as [|t r IH]; intros v Hin Hs; cbn [FSolve.t_solve_loop]; [apply agree_refl|].
+    assert (Hi : t_index (ncols_of num v) t = t).
+    { unfold t_index. specialize (Hin t (or_introl eq_refl)). destruct (t <? 1) eqn:E; lia. }
+    pose proof (t_solve_t_agree num sub absf ltb isfin zero evf fm sh t (W t) (Hin t (or_introl eq_refl)) Hrows
+                  (fun v0 => Hevf t v0 (Hin t (or_introl eq_refl))) v t mi ma tl off cv ec Hs Hi) as A.
+    set (o := t_solve_t fm v t mi ma tl off cv ec) in *.
+    assert (A' : agree_outside (WFs (t :: r)) v (fo_vals o)).
+    { eapply agree_mono; [|exact A]. intros i j H. exists t. split; [left; reflexivity|exact H]. }
+    destruct (if fo_code o =? 0 then negb (fo_conv o) && (fc =? c_fail_raise) else ec =? c_ec_raise); cbn [fst]; [exact A'|].
+    assert (Hs' : shape (fo_vals o) = sh) by (destruct A as [S _]; congruence).
+    specialize (IH (fo_vals o) (fun idx H => Hin idx (or_intror H)) Hs').
+    destruct (t_solve_loop fm (fo_vals o) r mi ma tl off cv fc ec) as [v' l]. cbn [fst] in *.
+    eapply agree_trans; [exact A'|]. eapply agree_mono; [|exact IH].
+    intros i j (idx & Hidx & H). exists idx. split; [right; exact Hidx|exact H].
+  Qed.
+
+  (* the wrapper's result loop never touches the values and stamps status / iterations at the listed positions only *)
+  Lemma w_results_frame o fr : forall ps rs (s : mstate num) acc,
+    let s' := fst (w_results o fr ps rs s acc) in
+    vals_of s' = vals_of s /\ log s' = log s /\
+    length (status s') = length (status s) /\ length (iters s') = length (iters s) /\
+    (forall q, ~ In q ps -> nth_error (status s') q = nth_error (status s) q /\ nth_error (iters s') q = nth_error (iters s) q).
+  Proof.
+    induction ps as [|p ps IH]; intros rs s acc; cbv zeta; cbn [FSolve.w_results].
+    { destruct rs; cbn [fst]; repeat split; reflexivity. }
+    destruct rs as [|[[cvg it] c] rs]; [cbn [fst]; repeat split; reflexivity|].
+    assert (Same : vals_of s = vals_of s /\ log s = log s /\ length (status s) = length (status s) /\
+                   length (iters s) = length (iters s) /\
+                   (forall q, ~ In q (p :: ps) -> nth_error (status s) q = nth_error (status s) q /\
+                                                   nth_error (iters s) q = nth_error (iters s) q))
+      by (repeat split; reflexivity).
+    assert (Stamp : forall x, let s1 := stampz num s (vals_of s) p x it in
+              vals_of s1 = vals_of s /\ log s1 = log s /\ length (status s1) = length (status s) /\
+              length (iters s1) = length (iters s) /\
+              (forall q, ~ In q (p :: ps) -> nth_error (status s1) q = nth_error (status s) q /\
+                                              nth_error (iters s1) q = nth_error (iters s) q)).
+    { intros x. cbv zeta. unfold stampz. cbn [vals_of log status iters]. rewrite !upd_length.
+      repeat split; try reflexivity; apply nth_error_upd_neq; intros ->; apply H; left; reflexivity. }
+    assert (Step : forall x acc', let s2 := fst (w_results o fr ps rs (stampz num s (vals_of s) p x it) acc') in
+              vals_of s2 = vals_of s /\ log s2 = log s /\ length (status s2) = length (status s) /\
+              length (iters s2) = length (iters s) /\
+              (forall q, ~ In q (p :: ps) -> nth_error (status s2) q = nth_error (status s) q /\
+                                              nth_error (iters s2) q = nth_error (iters s) q)).
+    { intros x acc'. cbv zeta.
+      destruct (IH rs (stampz num s (vals_of s) p x it) acc') as (V & Lg & L1 & L2 & Q).
+      destruct (Stamp x) as (V0 & Lg0 & L10 & L20 & Q0).
+      split; [congruence|]. split; [congruence|]. split; [congruence|]. split; [congruence|].
+      intros q Hq. destruct (Q q (fun H => Hq (or_intror H))) as [E1 E2]. destruct (Q0 q Hq) as [E3 E4]. split; congruence. }
+    destruct cvg; [apply Step|].
+    destruct (c =? w_s_ok); [destruct fr; [apply Stamp|apply Step]|].
+    destruct ((c =? w_s_raise) && is_raise (errors o)); [apply Stamp|].
+    destruct ((c =? w_s_pre) && is_raise (errors o)); [exact Same|].
+    destruct (c =? w_s_offpre); [exact Same|]. destruct (c =? w_s_offpost); [exact Same|].
+    destruct ((c =? w_s_skip) && is_skip (errors o)); [apply Step|exact Same].
+  Qed.
+
+  (* THE FRAME THEOREM OF FortranEngine.solve(): over the positions ps (all inside the span) the call changes values
+     only where one of the visited columns may be written, status / iterations at visited positions only, no event *)
+  Theorem fortran_solve_frame d o fl (ps : list nat) (s : mstate num) :
+    shape (vals_of s) = sh ->
+    (forall p, In p ps -> (p < hd 0%nat sh)%nat) ->
+    let s' := fst (w_solve fm d o fl ps s) in
+    agree_outside (WFs (map (fun p => Z.of_nat p + 1) ps)) (vals_of s) (vals_of s') /\
+    log s' = log s /\ length (status s') = length (status s) /\ length (iters s') = length (iters s) /\
+    (forall q, ~ In q ps -> nth_error (status s') q = nth_error (status s) q /\ nth_error (iters s') q = nth_error (iters s) q).
+  Proof.
+    intros Hs Hps. cbv zeta. unfold FSolve.w_solve.
+    assert (Same : agree_outside (WFs (map (fun p => Z.of_nat p + 1) ps)) (vals_of s) (vals_of s) /\
+                   log s = log s /\ length (status s) = length (status s) /\ length (iters s) = length (iters s) /\
+                   (forall q, ~ In q ps -> nth_error (status s) q = nth_error (status s) q /\ nth_error (iters s) q = nth_error (iters s) q)).
+    { split; [apply agree_refl|]. repeat split; reflexivity. }
+    destruct (max_iter o <? min_iter o); [exact Same|].
+    destruct (w_fc fl) as [fc|]; [|exact Same]. destruct (w_ec (errors o)) as [ec|]; [|exact Same].
+    pose proof (t_solve_loop_agree (min_iter o) (max_iter o) (tol o) (offset o) (cv_of d) fc ec
+                  (map (fun p => Z.of_nat p + 1) ps) (vals_of s)) as A.
+    destruct (t_solve_loop fm (vals_of s) (map (fun p => Z.of_nat p + 1) ps) (min_iter o) (max_iter o) (tol o) (offset o) (cv_of d) fc ec)
+      as [v' rs]. cbn [fst] in A.
+    destruct (w_results_frame o (match fl with FRaise => true | _ => false end) ps rs (setvals num s v') []) as (V & Lg & L1 & L2 & Q).
+    cbn [setvals vals_of log status iters] in V, Lg, L1, L2, Q.
+    split; [rewrite V; apply A; [|exact Hs]|].
+    - intros idx Hin. apply in_map_iff in Hin as (p & <- & Hp). specialize (Hps p Hp). lia.
+    - split; [exact Lg|]. split; [exact L1|]. split; [exact L2|exact Q].
+  Qed.
+End FortranSolveFrame.
+
+Section FortranParsedSolve.
+  Variable num : Type.
+  Variables (add sub mul div : num -> num -> num) (neg absf : num -> num) (ltb : num -> num -> bool).
+  Variable of_int : Z -> num.
+  Variables (fexp flog : num -> num) (fpow : num -> num -> num).
+  Variable round4 : num -> num.
+  Variables (exp4 log4 : num -> num) (pow4 : num -> num -> num).
+  Variables (zero one : num).
+  Variable isfin : num -> bool.
+  Notation f_pass := (f_pass num add sub mul div neg absf ltb of_int fexp flog fpow round4 exp4 log4 pow4 zero one).
+
+  (* FortranEngine.solve() of ANY generated program over the positions ps (inside the span), every option set: values
+     change only in the visited columns, and there only in left-hand-side / endogenous rows; status / iterations change
+     at visited positions only; no hook event *)
+  Theorem fortran_parsed_solve_touches_only_visited (prog : list (eqn num)) (fm : fmod) d o fl (ps : list nat) (s : mstate num) :
+    (forall r, In r (fm_endo fm) -> 1 <= r <= Z.of_nat (length (vals_of s))) ->
+    (forall i e, In (i, e) prog -> (i < length (vals_of s))%nat) ->
+    (forall p, In p ps -> (p < hd 0%nat (shape (vals_of s)))%nat) ->
+    let s' := fst (w_solve num sub absf ltb isfin zero (f_pass prog) fm d o fl ps s) in
+    agree_outside (fun i j => In j ps /\ ((exists e, In (i, e) prog) \/ In (Z.of_nat i + 1) (fm_endo fm))) (vals_of s) (vals_of s') /\
+    log s' = log s /\ length (status s') = length (status s) /\ length (iters s') = length (iters s) /\
+    (forall q, ~ In q ps -> nth_error (status s') q = nth_error (status s) q /\ nth_error (iters s') q = nth_error (iters s) q).
+  Proof.
+    intros Hrows Hlhs Hps. cbv zeta.
+    assert (Hr : forall r, In r (fm_endo fm) -> 1 <= r <= Z.of_nat (length (shape (vals_of s))))
+      by (intros r H; rewrite shape_length; apply Hrows; exact H).
+    assert (Hev : forall idx (v : vals num), 1 <= idx <= Z.of_nat (hd 0%nat (shape (vals_of s))) -> shape v = shape (vals_of s) ->
+                  agree_outside (f_written num prog idx) v (f_pass prog idx v)).
+    { intros idx v Hidx Hs.
+      apply (f_pass_frame num add sub mul div neg absf ltb of_int fexp flog fpow round4 exp4 log4 pow4 zero one
+               (shape (vals_of s))); [exact Hidx| |exact Hs].
+      intros i e Hin. rewrite shape_length. exact (Hlhs i e Hin). }
+    destruct (fortran_solve_frame num sub absf ltb isfin zero (f_pass prog) fm (shape (vals_of s))
+                (fun idx => f_written num prog idx) Hr Hev d o fl ps s eq_refl Hps) as (A & Rest).
+    split; [|exact Rest]. eapply agree_mono; [|exact A].
+    intros i j (idx & Hin & H). apply in_map_iff in Hin as (p & <- & Hp).
+    unfold WF, f_written in H. replace (Z.of_nat p + 1 - 1) with (Z.of_nat p) in H by lia. rewrite Nat2Z.id in H.
+    destruct H as [[He ->]|[Hi ->]]; (split; [exact Hp|]); [left; exact He|right; exact Hi].
+  Qed.
+End FortranParsedSolve.
